@@ -27,26 +27,12 @@ def radialTerms (n m : Nat) : List (Int × Nat) :=
 def evalTerms [Add K] [Mul K] [Zero K] [One K] [IntCast K] (ts : List (Int × Nat)) (rho : K) : K :=
   ts.foldl (fun acc t => acc + ((t.1 : Int) : K) * powK rho t.2) 0
 
-/-- a mode with the radial part `Rv` already evaluated: normalisation · radial · azimuthal · mask, with the operand order of the
-code (`np.sqrt(2) * np.sqrt(n+1) * R(m, n, rho) * np.cos(m*theta) * mask`; `Z = mask` for j = 1). The mask enters as the factor
-1 or 0, as in the code — so at `Float` a non-finite radial or azimuthal factor outside the mask gives NaN, not 0. -/
-def zernCore [Add K] [Mul K] [Zero K] [One K] [IntCast K] (sqrtN : Nat → K) (cos sin : K → K)
-    (n : Nat) (m : Int) (normalize : Bool) (Rv theta : K) (mask : Bool) : K :=
-  let mk : K := if mask then 1 else 0
-  if m = 0 then
-    if n = 0 then mk
-    else if normalize then sqrtN (n + 1) * Rv * mk else Rv * mk
-  else if 0 < m then
-    if normalize then sqrtN 2 * sqrtN (n + 1) * Rv * cos ((m : K) * theta) * mk
-    else Rv * cos ((m : K) * theta) * mk
-  else
-    if normalize then sqrtN 2 * sqrtN (n + 1) * Rv * sin ((m : K) * theta) * mk
-    else Rv * sin ((m : K) * theta) * mk
-
-/-- one sample of `zernike(mask, j, normalize, rho, theta)`; `sqrtN k` = √k -/
+/-- one sample of `zernike(mask, j, normalize, rho, theta)`: the REGENERATED decision tree and leaf products `Gen.zernCore` applied to the
+Noll orders of `j` and the radial polynomial; `sqrtN k` = √k. The mask enters as the factor 1 or 0, as in the code — so at `Float` a
+non-finite radial or azimuthal factor outside the mask gives NaN, not 0. -/
 def zernAt [Add K] [Mul K] [Zero K] [One K] [IntCast K] (sqrtN : Nat → K) (cos sin : K → K)
     (j : Nat) (normalize : Bool) (rho theta : K) (mask : Bool) : K :=
-  zernCore sqrtN cos sin (nollN j) (nollM j) normalize (radialEval (nollN j) (nollM j).natAbs rho) theta mask
+  Gen.zernCore sqrtN cos sin (nollN j) (nollM j) normalize (radialEval (nollN j) (nollM j).natAbs rho) theta mask
 
 /-- the same function with everything that depends only on `j` (Noll row, radial coefficient list) computed once; an evaluation
 strategy for the driver — `zernFast_eq` (Lemmas/Zernike.lean) proves it equal to `zernAt` -/
@@ -55,7 +41,7 @@ def zernFast [Add K] [Mul K] [Zero K] [One K] [IntCast K] (sqrtN : Nat → K) (c
   let n := nollN j
   let m := nollM j
   let ts := radialTerms n m.natAbs
-  fun rho theta mask => zernCore sqrtN cos sin n m normalize (evalTerms ts rho) theta mask
+  fun rho theta mask => Gen.zernCore sqrtN cos sin n m normalize (evalTerms ts rho) theta mask
 
 /-! ## `zernike_coordinates` -/
 
@@ -72,10 +58,10 @@ def maskMoments (mask : Arr Bool) : Nat × Nat × Nat :=
 section Coords
 variable [Add K] [Sub K] [Mul K] [Div K] [Neg K] [Zero K] [One K] [IntCast K] [NatCast K] [LT K] [DecidableRel (α := K) (· < ·)]
 
-/-- default `shift = centroid - shape // 2` -/
+/-- default `shift = centroid - shape // 2`: the REGENERATED `Gen.zShiftAxis` applied to the centroid of the mask -/
 def zShift (mask : Arr Bool) : K × K :=
   let mm := maskMoments mask
-  ((mm.2.1 : K) / (mm.1 : K) - ((mask.s0 / 2 : Int) : K), (mm.2.2 : K) / (mm.1 : K) - ((mask.s1 / 2 : Int) : K))
+  (Gen.zShiftAxis ((mm.2.1 : K) / (mm.1 : K)) mask.s0, Gen.zShiftAxis ((mm.2.2 : K) / (mm.1 : K)) mask.s1)
 
 /-- `rr`, `cc` of `helper.mesh(mask.shape, shift)` -/
 def zRR (mask : Arr Bool) (s : K × K) (i : Int) : K := meshCoord mask.s0 i s.1
